@@ -369,6 +369,26 @@ impl<T: Qcow2IoOps> Qcow2Dev<T> {
                 // then flush this l2 table, then decrease the
                 // old cluster's reference count in ram
 
+                // This slice is going to be written as a whole, and it may
+                // map other new data clusters whose stale content isn't
+                // zeroed yet (mappings are populated before the data writes
+                // of one multi-cluster write start): zero them now, so the
+                // sync in the following refcount flush makes that durable
+                // before any of these mappings reaches the disk.
+                let new_data_clusters: Vec<u64> = {
+                    let cls_map = self.new_cluster.read().await;
+
+                    (0..l2_table.entries())
+                        .map(|i| l2_table.get(i))
+                        .filter(|e| !e.is_compressed() && e.cluster_offset() != 0)
+                        .map(|e| e.cluster_offset())
+                        .filter(|off| cls_map.contains_key(&(off >> info.cluster_bits())))
+                        .collect()
+                };
+                for host_off in new_data_clusters {
+                    self.settle_new_meta_cluster(host_off).await?;
+                }
+
                 // flush refcount change, which is often small
                 // change
                 self.flush_refcount().await?;
